@@ -295,6 +295,38 @@ REACH = ["C15.event-stream-well-formed", "C15.all-formatters-see-the-same-stream
          "C15.json-step-status-attached-to-its-own-step", "C15.plain-shows-each-processed-step-once"]
 
 
+def h_same_names(sx):
+    """Scenarios that share keyword and name (two 'Scenario: Login', unnamed scenarios): every one of them is in the JSON
+    report, in run order, with its own status and steps."""
+    from behave.formatter._registry import make_formatters
+    from behave.formatter.base import StreamOpener
+    w, flags = build_world(sx)
+    w.config.show_skipped = True
+    w.config.show_timings = False
+    names = ["json", "plain"]
+    streams = {n: io.StringIO() for n in names}
+    w.config.format = list(names)
+    w.config.outputs = [StreamOpener(stream=streams[n]) for n in names]
+    w.config.color = "off"
+    w.runner.formatters = list(make_formatters(w.config, w.config.outputs))
+    w.run()
+    sx.check(w.escaped is None, "C15.no-exception", detail=lambda m: repr(w.escaped))
+    if w.escaped is not None:
+        return {"escaped": repr(w.escaped)}
+    want = [(e.obj.name, e.obj.status.name, [s.status.name for s in w.step_objs(e)]) for e in w.scenario_elems() if e.obj is not None]
+    try:
+        data = json.loads(streams["json"].getvalue())
+        got = [(el["name"], el.get("status"), [s_.get("result", {}).get("status", "untested") for s_ in el["steps"]])
+               for d in data for el in d.get("elements", []) if el["type"] == "scenario"]
+    except ValueError as ex:
+        got = [("<invalid json>", str(ex), [])]
+    det = lambda m: {"json": got, "model": want, "status": w.status_table()}
+    sx.check([g[:2] for g in got] == [x[:2] for x in want], "C15.json-scenarios==shown-scenarios", detail=det)
+    plain = re.findall(r"^\s*Scenario: (.*)$", streams["plain"].getvalue(), re.M)
+    sx.check([p_.strip() for p_ in plain] == [x[0] for x in want], "C15.plain-shows-each-scenario", detail=lambda m: dict(det(m), plain=plain))
+    return {"json": [list(g[:2]) for g in got]}
+
+
 def jobs(tier, seed):
     js = []
     D = {"*": [0, 2]}
@@ -315,6 +347,10 @@ def jobs(tier, seed):
     if tier == "thorough":
         shapes.update({"3sc": ([F([S(2), S(2), S(1)])], {"out_dom": {"*": [0, 5]}, "stop": "sym", "dry_run": "sym"}),
                        "rule-outline": ([F([S(1), R([O(1, [(2, [])]), S(1)], bg=1)])], {"out_dom": D})})
+    js.append(Job("same-names", "props.c15:h_same_names",
+                  {"shapes": [F([S(1, name="Login"), S(1, name="Login"), S(1), R([S(1, name="Login"), S(1, name="Login")])])],
+                   "opts": {"out_dom": {"*": [0, 1]}, "undef": False}},
+                  reach=["C15.json-scenarios==shown-scenarios"], min_paths=20, cost=100, validate=40))
     for name, (sh, opts) in shapes.items():
         js.append(Job("fmt.%s" % name, "props.c15:h_formatters", {"shapes": sh, "opts": opts, "feature_cleanup": name == "feature-cleanup", "hook_skip": name == "hook-skip"},
                       reach=REACH if name != "2feat-select" else REACH[:3], min_paths=20, cost=100, validate=40))
